@@ -36,6 +36,8 @@ def rand_operand(rng):
         return ("atom", '"' + rng.choice(["x", "road a", "(b)", "a)", "[q]"]) + '"')
     if c < .88:
         return ("atom", "'" + rng.choice(["y", "it s", "(", "z z"]) + "'")
+    if c < .93:
+        return ("atom", rng.choice(["{01234,02345}", "{1.50,+2}", "{a,b}", "{true,7}", "{10,20}"]))
     return ("call", rng.choice(["length", "tostring", "round"]), [rng.choice(["[a]", "'[n]'", '"%.2f"', "2", "[b]"]) for _ in range(rng.randint(1, 3))])
 
 
@@ -145,7 +147,7 @@ def render(rng, t, extra=0.25):
     return sub(t[1], p) + [SPELL[k]] + sub(t[2], p + 1)
 
 
-TOKEN_RE = re.compile(r"""\s*(?:(?P<str>"[^"]*"|'[^']*'|`[^`]*`)|(?P<bind>\[[^\]]*\])|(?P<num>[0-9]+(?:\.[0-9]+)?)|"""
+TOKEN_RE = re.compile(r"""\s*(?:(?P<str>"[^"]*"|'[^']*'|`[^`]*`)|(?P<bind>\[[^\]]*\])|(?P<lst>\{[^}]*\})|(?P<num>[0-9]+(?:\.[0-9]+)?)|"""
                       r"""(?P<op>>=|<=|==|!=|=\*|~\*|&&|\|\||[=<>~!+\-*/^(),])|(?P<word>[A-Za-z_][A-Za-z0-9_]*))""")
 
 
@@ -342,6 +344,14 @@ def tree_to_E(node):
         return {"k": "atom", "s": str(ch[0])}
     if d in ("true", "false"):
         return {"k": "atom", "s": "True" if d == "true" else "False"}
+    if d == "list":
+        # a list literal {a,b,c}: an operand, kept as it is written (items joined by commas, blanks between items dropped)
+        def item(c):
+            return str(c) if isinstance(c, Token) else str(c.children[0]) if len(c.children) == 1 and isinstance(c.children[0], Token) else None
+        items = [item(c) for c in ch]
+        if any(i is None for i in items):
+            raise ValueError("structured list item")
+        return {"k": "atom", "s": "{" + ",".join(items) + "}"}
     raise ValueError(f"unsupported node {d}")
 
 
